@@ -51,9 +51,21 @@ P("C04", "proof", "Lean 4 theorems (acceptance rule, first-offender error, Unix 
   modules=["TypedPathVerif.Lemmas.Append"],
   rule=NONTRIV + "non-trivial = argument has >= 2 components or is rejected", design_ref="§5 C04")
 
-P("C05", "translation_validation", "Lean model vs code differential + clause oracle",
-  "eq / cmp / exact hasher input against the model; coherence clauses on pairs and triples on the implementation.",
-  TV_NOTE + "Layout of #[derive(Hash)] for the pinned rustc is reproduced in the model.",
+P("C05", "proof", "Lean 4 theorems (lexicographic total-order laws, eq iff components, hash factors through components) + model/code correspondence incl. exact hasher input",
+  "Proved in Lean for both encodings and all byte strings: two paths are equal iff their component lists are equal with "
+  "the prefix compared by parsed kind (eq_iff_comps); ordering is the lexicographic order on components built from "
+  "the derived orders (cmp_lexicographic), it is a total order — antisymmetric, transitive, Equal a congruence "
+  "(cmp_total_order, cmp_transitive) — and says Equal exactly for equal paths (cmp_equal_iff_eq); the hasher input, as "
+  "the exact sequence of write calls described by hashSpec, is a function of the component list, so equal paths feed "
+  "identical data (eq_implies_same_hash). hashSpec and the byte-level model of the Rust hash loop are both compared "
+  "with the recorded Hasher::write calls of the implementation on every run.",
+  "That hashSpec describes the Rust hash loop is validated by differential testing (exact chunk sequences on ~30k "
+  "paths per encoding), not proved: the theorem is about hashSpec. The layout of #[derive(Hash)] / #[derive(Ord)] for "
+  "the pinned rustc is reproduced in the model. Owned / UTF-8 / typed / mixed impls and HashSet/BTreeSet lookups: "
+  "oracle (implementation vs implementation).",
+  theorems=["TP.C05.eq_iff_comps", "TP.C05.cmp_lexicographic", "TP.C05.cmp_total_order", "TP.C05.cmp_transitive",
+            "TP.C05.cmp_equal_iff_eq", "TP.C05.eq_implies_same_hash", "TP.isOrd_lexCmp"],
+  modules=["TypedPathVerif.Lemmas.Order"],
   rule=NONTRIV + "pairs: each path with its re-spellings and random others; non-trivial = equal but differently spelled, or >= 2 components", design_ref="§5 C05")
 
 P("C06", "translation_validation", "Lean model vs code differential + std::path oracle",
